@@ -416,3 +416,9 @@ Example exj_negzero :
     PrimFloat.get_sign (nth 0 st 0%float) = false /\ PrimFloat.get_sign (nth 1 (buf J) 1%float) = false /\
     PrimFloat.get_sign (-0)%float = true.
 Proof. do 3 eexists. split; [vm_compute; reflexivity|]. repeat split; vm_compute; reflexivity. Qed.
+
+(* named constants for the pinned statements (Props files do not import the float notations) *)
+Definition exj_evs : list (list PrimFloat.float) :=
+  [[0.5; -1.25; 3]; [0x1.00002p-1; -1.25; 3]; [0.5; -0x1.3ffffp+0; 3]; [0.5; -1.25; 0x1.800008p+1]]%float.
+Definition exj_Mneg : matrix AF := @mkM AF [1; -0; 3; -1; 0; 5]%float 2 3.
+Definition exj_xneg : list PrimFloat.float := [-0; -1.25; 3]%float.
